@@ -73,6 +73,9 @@ type c16Case struct {
 	RTX     bool   `json:"rtx"`
 	Seq     []int  `json:"seq"`
 	Variant string `json:"variant"`
+	// Layout of the offer: "" = one audio and one video section; "v+vp" / "vp+v" = a second video section that
+	// lists only the primary codecs of the video list (no RTX / FlexFEC / RED) after / before the full one
+	Layout string `json:"layout,omitempty"`
 }
 
 func c16Locals(cs c16Case) []c16Codec {
@@ -123,12 +126,35 @@ func c16Remote(seq []int) (out []c16Codec, ok bool) {
 	return out, true
 }
 
-func c16OfferText(remote []c16Codec) string {
+func c16OfferText(remote []c16Codec) string { return c16OfferLayout(remote, "") }
+
+func c16IsRepair(name string) bool {
+	return strings.EqualFold(name, "rtx") || strings.EqualFold(name, "flexfec-03") || strings.EqualFold(name, "red")
+}
+
+// c16HasLayouts: the two-video-section layouts differ from the plain one only when the video list holds
+// both a primary and a repair codec.
+func c16HasLayouts(remote []c16Codec) bool {
+	prim, rep := false, false
+	for _, r := range remote {
+		if r.Kind == "video" {
+			if c16IsRepair(r.Name) {
+				rep = true
+			} else {
+				prim = true
+			}
+		}
+	}
+
+	return prim && rep
+}
+
+func c16OfferLayout(remote []c16Codec, layout string) string {
 	var secs []vScanOfferSection
-	for _, kind := range []string{"audio", "video"} {
+	section := func(kind string, primariesOnly bool) {
 		s := vScanOfferSection{Media: kind, Dir: "sendrecv"}
 		for _, r := range remote {
-			if r.Kind == kind {
+			if r.Kind == kind && !(primariesOnly && c16IsRepair(r.Name)) {
 				s.Codecs = append(s.Codecs, vScanOfferCodec{PT: r.PT, Name: r.Name, Clock: r.Clock, Ch: r.Ch, Fmtp: r.Fmtp, FB: r.FB})
 			}
 		}
@@ -136,6 +162,17 @@ func c16OfferText(remote []c16Codec) string {
 			s.Mid = fmt.Sprintf("%d", len(secs))
 			secs = append(secs, s)
 		}
+	}
+	section("audio", false)
+	switch layout {
+	case "v+vp":
+		section("video", false)
+		section("video", true)
+	case "vp+v":
+		section("video", true)
+		section("video", false)
+	default:
+		section("video", false)
 	}
 
 	return vScanWriteOffer(secs)
@@ -383,7 +420,7 @@ func TestVerifC16(t *testing.T) {
 			vkit.Fatalf(t, "replay case has a repeated payload type")
 		}
 		c.Eval()
-		c16Run(t, c, map[string]bool{}, wrap.Case, c16OfferText(remote))
+		c16Run(t, c, map[string]bool{}, wrap.Case, c16OfferLayout(remote, wrap.Case.Layout))
 
 		return
 	}
@@ -438,6 +475,16 @@ func TestVerifC16(t *testing.T) {
 			for _, v := range c16Variants {
 				c16Run(t, c, memo, c16Case{Local: e.local, RTX: e.rtx, Seq: seq, Variant: v}, offer)
 				n++
+			}
+			// a second video section without the repair codecs: what is negotiated for one section of a kind
+			// must not leak into the answer of another section of that kind
+			if c16HasLayouts(remote) {
+				for _, lay := range []string{"v+vp", "vp+v"} {
+					for _, v := range []string{"remote-first", "transceiver"} {
+						c16Run(t, c, memo, c16Case{Local: e.local, RTX: e.rtx, Seq: seq, Variant: v, Layout: lay}, c16OfferLayout(remote, lay))
+						n++
+					}
+				}
 			}
 		}
 		c.EvalN(n)
